@@ -62,6 +62,10 @@ def generic_check(mod, tier, seed):
                 kept.append(c)
             except Exception as e:   # the observation cannot be expressed in the model's types
                 run.broken.append({"obligation": "correspondence %s: case not expressible" % mod.PROP, "detail": repr(e), "input": c})
+        if hasattr(mod, "spec_global"):
+            for v in mod.spec_global(cases, resps):
+                v["profile"] = prof
+                run.violations.append(v)
         # the extracted model (OCaml driver) on every case
         okd, drv, dout, ddt = lv.build_driver()
         run.checker_cmds.append("coqc extract/Extract.v && genreaders.py && ocamlfind ocamlopt (extracted model driver)")
